@@ -327,9 +327,15 @@ type SchemaCase struct {
 type Engine struct {
 	Name  string
 	Proto func(ts *schema.TypeSystem, name string) (schema.TypedPrototype, error)
+	// ViaDSL: the type system is not spawned through the Go API but rendered as IPLD Schema DSL text and loaded
+	// by the library (schema/dsl parser -> schema/dmt -> Compile)
+	ViaDSL bool
 }
 
-var BindnodeEngine = Engine{"bindnode", func(ts *schema.TypeSystem, name string) (tp schema.TypedPrototype, err error) {
+// BindnodeDSLEngine: the reflection binding over a type system loaded from DSL text.
+var BindnodeDSLEngine = Engine{Name: "bindnode", Proto: BindnodeEngine.Proto, ViaDSL: true}
+
+var BindnodeEngine = Engine{Name: "bindnode", Proto: func(ts *schema.TypeSystem, name string) (tp schema.TypedPrototype, err error) {
 	if p := model.Safe(func() { tp = bindnode.Prototype(nil, ts.TypeByName(name)) }); p != nil {
 		return nil, fmt.Errorf("bindnode.Prototype panicked: %v", p)
 	}
@@ -369,9 +375,23 @@ func replaySchemaCase(cs *SchemaCase, eng Engine, roundTrip bool) (*run.Finding,
 	if root.Repr != nil {
 		kindTag += "/" + root.Repr.R
 	}
+	route := ""
+	if eng.ViaDSL {
+		route = " [type system loaded from DSL text]"
+	}
 	fail := func(op, rule, class, detail string) *run.Finding {
 		return &run.Finding{Step: -1, Target: eng.Name, Rule: rule, Class: class,
-			Detail: fmt.Sprintf("%s, type %s (%s), %s-level input %v: %s", op, tname, kindTag, cs.Level, cs.Input, detail)}
+			Detail: fmt.Sprintf("%s, type %s (%s)%s, %s-level input %v: %s", op, tname, kindTag, route, cs.Level, cs.Input, detail)}
+	}
+	if eng.ViaDSL {
+		ts2, text, derr := BuildTypeSystemViaDSL(cs.Ty)
+		if derr != nil {
+			return fail("LoadSchema", "schema-dsl:loads", "error", fmt.Sprintf("%v\n%s", derr, text)), 0, nil
+		}
+		if ts2.TypeByName(tname) == nil {
+			return fail("LoadSchema", "schema-dsl:loads", "type-missing", text), 0, nil
+		}
+		ts = ts2
 	}
 	proto, err := eng.Proto(ts, tname)
 	if err != nil {
@@ -570,7 +590,7 @@ func GenEngine() (Engine, bool) {
 }
 
 func ProtoPairEngine(name string, protos map[string][2]datamodel.NodePrototype) Engine {
-	return Engine{name, func(ts *schema.TypeSystem, tn string) (schema.TypedPrototype, error) {
+	return Engine{Name: name, Proto: func(ts *schema.TypeSystem, tn string) (schema.TypedPrototype, error) {
 		pp, ok := protos[tn]
 		if !ok {
 			return nil, fmt.Errorf("no generated prototype for %s", tn)
